@@ -5,15 +5,19 @@ from .. import vlib
 TRUSTED = [
     "Lean 4.33 kernel; axioms per theorem under coverage.axioms (subset of propext, Classical.choice, Quot.sound)",
     "harness/satfunc.cpp (real PiecewiseLinearTwoPhaseMaterial / EclEpsTwoPhaseLaw / EclHysteresisTwoPhaseLaw templates instantiated directly) + lib/vlib.py differ; model driver (compiled Lean at IEEE double, operation order mirrored, bit-exact comparison)",
+    "harness/satdeck.cpp (random decks -> real Parser -> EclipseState -> EclMaterialLawManager::initFromState/initParamsForElements; hands the model the tables as the TableManager holds them and the end-point arrays as the field properties hold them, both in SI: the text -> number and unit conversion steps belong to C01/C16/C19, not to this check)",
     "Float ~ R: theorems are over a linearly ordered field",
-    "modelled, not verified: EclMaterialLawManager (deck -> tables, family I/II conversion, end-point defaults from SatfuncPropertyInitializers), three-phase combination (Default/Stone1/Stone2), Killough (kr models 2-4), WAG and capillary-pressure hysteresis",
+    "modelled, not verified: Stone 1 / Stone 2, the two-phase and gas-water multiplexer branches, LET and SLGOF / family III tables, JFUNC (Leverett) and SWATINIT / PPCWMAX, ENPTVD/ENKRVD depth tables, directional (KRNUMX..) and LGR lookups, WAG and capillary-pressure hysteresis, Killough for the wetting phase (model 4)",
 ]
 
 
 def run(ctx):
     ctx.assumptions += [
-        "tables: Sw strictly increasing, krw non-decreasing, krn and pc non-increasing",
-        "hysteresis: Carlson (krHysteresisModel 0/1), pc hysteresis off, no WAG",
+        "tables: Sw strictly increasing, krw non-decreasing, krn and pc non-increasing; first relperm sample of every increasing column <= TOLCRIT (otherwise crit_sat_increasing_KR reads sat[-1]) and last sample of every decreasing column <= TOLCRIT",
+        "a non-empty two-phase mobile range (table SWCR < 1 - SOWCR - SGL etc.): otherwise the three-point vertical scaling divides 0 by 0 (the deck generator of the property mode keeps to it; the correspondence does not and compares NaN with NaN)",
+        "PCW / PCG only for regions whose table has a non-zero maximum capillary pressure (else 0 * (PCW / 0) = NaN, design.d/C15.md finding F-C15-1)",
+        "hysteresis at deck level: Carlson (EHYSTR item 2 = 0/1, flag KR); Killough (2/3) at template level; no WAG",
+        "three phases, default three-phase oil relperm model",
     ]
     if not ctx.stage_build_opm():
         return ctx.finish(trusted_base=TRUSTED)
@@ -21,10 +25,17 @@ def run(ctx):
     if not ok:
         ctx.tie_broken("harness", "satfunc harness does not compile: " + out[-2000:])
         return ctx.finish(trusted_base=TRUSTED)
+    ok2, exe2, out2 = vlib.build_harness("satdeck")
+    if not ok2:
+        ctx.tie_broken("harness", "satdeck harness does not compile: " + out2[-2000:])
     if ctx.stage_lean():
         ctx.stage_audit()
         ctx.stage_correspondence(exe, ["corr", ctx.seed, ctx.tier])
+        if ok2:
+            ctx.stage_correspondence(exe2, ["corr", ctx.seed, ctx.tier], label="corr_deck")
     ctx.stage_property_mode(exe, ["prop", ctx.seed, ctx.tier])
+    if ok2:
+        ctx.stage_property_mode(exe2, ["prop", ctx.seed, ctx.tier], label="prop_deck")
     return ctx.finish(trusted_base=TRUSTED)
 
 
